@@ -635,6 +635,15 @@ class Directed(Scenario):
             else:
                 self.do(r.choice(["vs chanclose", "vs tmode pend 0", "vs tmode ok", "vs tmode fail 0"]))
             self.do("vs poll")
+        if r.random() < 0.25 and not self.dead:
+            # the peer never hears us: it keeps resending an old data packet
+            pl = self.peer_payload(r.choice([1, 100]))
+            for _ in range(r.randrange(2, 8)):
+                if self.dead:
+                    break
+                self.do(f"vs adv {r.choice([100_000_000, 500_000_000, 900_000_000])}")
+                self.inject(0, seq=(self.peer_next - r.choice([1, 1, 2])) % 65536, ack=self.peer_ack, payload=pl)
+                self.do("vs poll")
         for _ in range(r.randrange(0, 6)):
             if self.dead:
                 break
